@@ -246,6 +246,8 @@ def qmdp(sx, shape, h, permuted=False):
             m = None
             for a in av:
                 m = av[a] if m is None else core.smax2(m, av[a])
+            # the QMDP value of a belief is the best of its own action values there (max of expectations, not expectation of maxima)
+            sx.prove_eq(v, m, f'qmdp-value-is-its-best-action-value[belief {bi}]')
             G = [a for a in av if bool(av[a] == m)]
             d = dict(res.policy.action_dist(bel).items())
             sx.prove(set(d) == {AL[a] for a in G}, f'qmdp-action-dist-support-is-the-maximisers[belief {bi}]')
